@@ -38,7 +38,9 @@ REQUIRED_THEOREMS = [
     "C13.zfile_refines_stream_chunks",
     "C13.invariant_preserved",
     "C13.size_known_at_eof",
+    "C13.read_all_reaches_eof",
     "C13.write_concat",
+    "C13.write_roundtrip",
 ]
 TRUSTED_EXTRA = [
     "modelled, not verified: CPython's zlib codec (zlib.compressobj / zlib.decompressobj). The model is fed the decompressed "
